@@ -876,3 +876,254 @@ Proof.
   - exact I4.
   - exact I.
 Qed.
+
+(* ---- slot loads and stores *)
+(* under flatness a variable reference never yields a pointer *)
+Theorem load_lex_slot_clean s k v s' : flat s -> load_lex_slot k s = ROk v s' -> no_lexptr v.
+Proof.
+  intros F H. apply load_lex_slot_inv in H as (_ & e & j & l & Hloc & Hl & Hv).
+  unfold location in Hloc.
+  destruct (env_at s (ep s)) as [[eid l0]|] eqn:Ee; [|discriminate].
+  destruct (list_get l0 k) as [c|] eqn:Ec; [|discriminate].
+  destruct (lexptr_cases c VUndef) as [(q & k2 & ->)|(Hcl & _)].
+  - destruct (F _ _ _ _ _ _ Ee Ec) as (e2 & l2 & w & Hq & Hw & Hc).
+    rewrite Hq in Hloc. injection Hloc as <- <-.
+    apply env_at_some in Hq as (_ & _ & E2). rewrite E2 in Hl. injection Hl as <-.
+    rewrite Hw in Hv. injection Hv as <-. exact Hc.
+  - assert (Hd : Some (eid, k) = Some (e, j)) by (destruct c; try exact Hloc; destruct Hcl).
+    injection Hd as <- <-. apply env_at_some in Ee as (_ & _ & E0). rewrite E0 in Hl. injection Hl as <-.
+    rewrite Ec in Hv. injection Hv as <-. exact Hcl.
+Qed.
+
+(* an assignment of a non-pointer value preserves the invariant *)
+Theorem lex_inv_store s k v u s' :
+  lex_inv s -> no_lexptr v -> store_lex_slot k v s = ROk u s' -> lex_inv s'.
+Proof.
+  intros [I1 I2 I3 I4 I5] Hv H.
+  destruct (store_lex_slot_inv k v s u s' H) as (e & j & l & _ & Hl & Hj & ->).
+  assert (Hpers : envs_persist s (with_store s (set_env (st s) e (list_set l j v)))).
+  { intros q e2 l2 Hq. apply env_at_some in Hq as (L & C & E).
+    destruct (N.eq_dec e e2) as [<-|Hne].
+    - rewrite Hl in E. injection E as <-. exists (list_set l j v). split.
+      + apply env_at_some. cbn [hp st with_store envs set_env]. rewrite tget_tset_same. auto.
+      + intros k0 w Hw. rewrite list_get_set, Hw. destruct (j =? k0); eauto.
+    - exists l2. split.
+      + apply env_at_some. cbn [hp st with_store envs set_env]. rewrite tget_tset_other by exact Hne. auto.
+      + intros k0 w Hw. eauto. }
+  constructor; cbn [hp st acc with_store].
+  - exact I1.
+  - intros e' He'. cbn [set_env envs next_id] in *.
+    rewrite tget_tset_other; [apply I2; exact He'|]. intros ->. rewrite I2 in Hl by exact He'. discriminate.
+  - apply (flat_envs_step s _ Hpers I3). intros eid l0 k0 v0 E Hk0.
+    cbn [st with_store envs set_env] in E.
+    destruct (N.eq_dec e eid) as [<-|Hne].
+    + rewrite tget_tset_same in E. injection E as <-. rewrite list_get_set in Hk0.
+      destruct (j =? k0).
+      * destruct (list_get l k0); [|discriminate]. injection Hk0 as <-. left. apply no_lexptr_slot_flat, Hv.
+      * right. eauto.
+    + rewrite tget_tset_other in E by exact Hne. right. eauto.
+  - exact I4.
+  - exact I5.
+Qed.
+
+(* ---- the remaining instructions of the procedure-call protocol *)
+Definition keeps_vals {A} (m : M A) : Prop :=
+  forall s, match m s with
+            | ROk _ s' | RErr _ _ s' => hp s' = hp s /\ st s' = st s /\ stack s' = stack s /\ acc s' = acc s
+            | _ => True end.
+Lemma keeps_vals_pure {A} (m : M A) : pure m -> keeps_vals m.
+Proof. intros Hp s. specialize (Hp s). destruct (m s); try exact I; subst; auto. Qed.
+Lemma keeps_vals_bind {A B} (m : M A) (f : A -> M B) :
+  keeps_vals m -> (forall a, keeps_vals (f a)) -> keeps_vals (bindM m f).
+Proof.
+  intros Hm Hf s. unfold bindM. specialize (Hm s). destruct (m s) as [a s1|e msg s1|k|]; auto.
+  specialize (Hf a s1). destruct (f a s1); auto; destruct Hm as (<- & <- & <- & <-); exact Hf.
+Qed.
+Lemma keeps_vals_ok {A} (m : M A) s a s' : keeps_vals m -> m s = ROk a s' ->
+  hp s' = hp s /\ st s' = st s /\ stack s' = stack s /\ acc s' = acc s.
+Proof. intros Hk H. specialize (Hk s). rewrite H in Hk. exact Hk. Qed.
+Lemma keeps_vals_set_sp p : keeps_vals (set_sp p). Proof. intros s; cbn; auto. Qed.
+Lemma keeps_vals_set_ep p : keeps_vals (set_ep p). Proof. intros s; cbn; auto. Qed.
+Lemma keeps_vals_set_bp p : keeps_vals (set_bp p). Proof. intros s; cbn; auto. Qed.
+Lemma keeps_vals_set_ip p : keeps_vals (set_ip p). Proof. intros s; cbn; auto. Qed.
+
+Lemma keeps_vals_read_opcode : keeps_vals read_opcode.
+Proof.
+  unfold read_opcode. apply keeps_vals_bind; [apply keeps_vals_pure, pure_cur_lambda|]. intros l.
+  apply keeps_vals_bind; [apply keeps_vals_pure, pure_get_vm|]. intros s.
+  destruct (list_get (l_bc l) (snd (ip s))) as [[]|]; try (apply keeps_vals_pure, pure_fail).
+  apply keeps_vals_bind; [apply keeps_vals_set_ip|]. intros _. apply keeps_vals_pure, pure_ret.
+Qed.
+Lemma keeps_vals_read_operand : keeps_vals read_operand.
+Proof.
+  unfold read_operand. apply keeps_vals_bind; [apply keeps_vals_pure, pure_cur_lambda|]. intros l.
+  apply keeps_vals_bind; [apply keeps_vals_pure, pure_get_vm|]. intros s.
+  destruct (list_get (l_bc l) (snd (ip s))) as [[]|]; try (apply keeps_vals_pure, pure_fail);
+    (apply keeps_vals_bind; [apply keeps_vals_set_ip|]; intros _; apply keeps_vals_pure, pure_ret).
+Qed.
+
+Lemma keeps_vals_ret_body : keeps_vals ret_body.
+Proof.
+  unfold ret_body.
+  apply keeps_vals_bind; [apply keeps_vals_pure, pure_get_vm|]. intros s.
+  apply keeps_vals_bind; [apply keeps_vals_pure, pure_stack_get|]. intros a.
+  apply keeps_vals_bind; [apply keeps_vals_pure, pure_as_argc|]. intros n.
+  apply keeps_vals_bind; [apply keeps_vals_pure, pure_usub|]. intros nsp.
+  apply keeps_vals_bind; [apply keeps_vals_set_sp|]. intros _.
+  apply keeps_vals_bind; [apply keeps_vals_pure, pure_stack_get|]. intros e.
+  apply keeps_vals_bind; [apply keeps_vals_pure, pure_as_ep|]. intros e'.
+  apply keeps_vals_bind; [apply keeps_vals_set_ep|]. intros _.
+  apply keeps_vals_bind; [apply keeps_vals_pure, pure_stack_get|]. intros i.
+  apply keeps_vals_bind; [apply keeps_vals_pure, pure_as_ip|]. intros i'.
+  apply keeps_vals_bind; [apply keeps_vals_set_ip|]. intros _.
+  apply keeps_vals_bind; [apply keeps_vals_pure, pure_stack_get|]. intros b.
+  apply keeps_vals_bind; [apply keeps_vals_pure, pure_as_bp|]. intros b'.
+  apply keeps_vals_bind; [apply keeps_vals_set_bp|]. intros _.
+  apply keeps_vals_pure, pure_ret.
+Qed.
+
+Lemma lex_inv_keeps_vals {A} (m : M A) s a s' : keeps_vals m -> m s = ROk a s' -> lex_inv s -> lex_inv s'.
+Proof.
+  intros Hk H Hinv. destruct (keeps_vals_ok m s a s' Hk H) as (Hh & Hs & Hst & Hacc).
+  apply (lex_inv_regs s s' Hh Hs); [| |exact Hinv].
+  - intros i. unfold sget. rewrite Hst. apply (li_stack s Hinv).
+  - rewrite Hacc. apply (li_acc s Hinv).
+Qed.
+
+Lemma lex_inv_push s v u s' : lex_inv s -> no_lexptr v -> push v s = ROk u s' -> lex_inv s'.
+Proof.
+  intros Hinv Hv H. unfold push in H. injection H as _ <-.
+  apply (lex_inv_regs s); try reflexivity; [|apply (li_acc s Hinv)|exact Hinv].
+  apply (stack_clean_tset s _ v (sp s + 1)); [apply (li_stack s Hinv)|exact Hv|reflexivity].
+Qed.
+
+(* the instructions of the call protocol and of closure creation *)
+Definition scoped_op (op : opcode) : bool :=
+  match op with
+  | OEnter | OClosureAcc | ORet | OPushAcc | OJmp | OJnt | OHalt => true
+  | _ => false
+  end.
+
+Theorem lex_inv_step ob s op s0 r s' :
+  lex_inv s -> read_opcode s = ROk op s0 -> scoped_op op = true ->
+  run_one ob s = ROk r s' -> lex_inv s'.
+Proof.
+  intros Hinv Hop Hsc H.
+  pose proof (lex_inv_keeps_vals _ _ _ _ keeps_vals_read_opcode Hop Hinv) as Hinv0.
+  unfold run_one in H. unfold bindM at 1 in H. rewrite Hop in H.
+  destruct op; try discriminate Hsc.
+  - (* JMP *)
+    eapply (lex_inv_keeps_vals _ s0 r s'); [|exact H|exact Hinv0].
+    apply keeps_vals_bind; [apply keeps_vals_read_operand|]. intros o.
+    apply keeps_vals_bind; [apply keeps_vals_pure, pure_as_ptr|]. intros p.
+    apply keeps_vals_bind; [apply keeps_vals_pure, pure_get_vm|]. intros s1.
+    apply keeps_vals_bind; [apply keeps_vals_set_ip|]. intros _. apply keeps_vals_pure, pure_ret.
+  - (* JNT *)
+    eapply (lex_inv_keeps_vals _ s0 r s'); [|exact H|exact Hinv0].
+    apply keeps_vals_bind; [apply keeps_vals_read_operand|]. intros o.
+    apply keeps_vals_bind; [apply keeps_vals_pure, pure_as_ptr|]. intros p.
+    apply keeps_vals_bind; [apply keeps_vals_pure, pure_get_vm|]. intros s1.
+    apply keeps_vals_bind; [apply keeps_vals_pure, pure_hderef|]. intros a.
+    destruct a; try (apply keeps_vals_pure, pure_ret). destruct b; [apply keeps_vals_pure, pure_ret|].
+    apply keeps_vals_bind; [apply keeps_vals_set_ip|]. intros _. apply keeps_vals_pure, pure_ret.
+  - (* PUSH %acc *)
+    unfold bindM, get_vm in H.
+    destruct (push (acc s0) s0) as [u s1| | |] eqn:Ep; try discriminate. unfold ret in H. injection H as _ <-.
+    eapply lex_inv_push; [exact Hinv0|apply (li_acc s0 Hinv0)|exact Ep].
+  - (* HALT *)
+    unfold ret in H. injection H as _ <-. exact Hinv0.
+  - (* CLOSURE *)
+    eapply lex_inv_closure; [exact Hinv0|exact H].
+  - (* ENTER *)
+    eapply lex_inv_enter; [exact Hinv0|exact H].
+  - (* RET *)
+    eapply (lex_inv_keeps_vals ret_body s0 r s'); [apply keeps_vals_ret_body|exact H|exact Hinv0].
+Qed.
+
+(* C02_locations_flat_stmt holds in every state satisfying the invariant *)
+Corollary lex_inv_flat s : lex_inv s -> flat s.
+Proof. intros H. apply flat_envs_flat, (li_flat s H). Qed.
+
+(* ====================================================================== *)
+(* a small machine for the non-vacuity examples of Props/C02.v: the closure at heap
+   address 2 = (lambda at 0, closure environment at 1 = payload 1 = [Undefined; #t]);
+   the lambda has one parameter (slot 0) and one captured variable (slot 1); the stack
+   holds one argument and the frame CALL pushed; %ip is at the RET of the lambda *)
+Definition ex_lambda : lambda :=
+  mk_lambda false false [(VPtr 100, BArgument 0); (VPtr 101, BIofArgument 0)] [VPtr 100]
+            [VOp OEnter; VOp ORet] None.
+Definition ex_heap : heap :=
+  snd (heap_put (snd (heap_put (snd (heap_put (heap_new 8) (VLambda 0))) (VLexEnv 1))) (VClosure 0 1)).
+Definition ex_store : store :=
+  mk_store tempty tempty (tset tempty 1 [VUndef; VBool true]) (tset tempty 0 ex_lambda) tempty tempty 2.
+Definition ex_stack (arg : vcell) : tbl vcell :=
+  tset (tset (tset (tset tempty 1 arg) 2 (VArgc 1)) 3 (VEp USIZE_MAX)) 4 (VIp 0 0).
+Definition ex_vm (arg : vcell) : vm :=
+  mk_vm ex_heap ex_store [] [] (ex_stack arg) STACK_INIT 4 0 USIZE_MAX (0, 1) (VPtr 2) [].
+Definition ex_ob : N -> M vcell := fun _ => fail E_OTHER.
+Definition st_of {A} (r : res A) (d : vm) : vm := match r with ROk _ s => s | _ => d end.
+(* after the first call's ENTER; a second call on the memory the first one left; its ENTER *)
+Definition ex_s1 : vm := st_of (enter_frame (ex_vm (VBool false))) (ex_vm VNil).
+Definition ex_s2 : vm := with_store (with_heap (ex_vm VNil) (hp ex_s1)) (st ex_s1).
+Definition ex_s2' : vm := st_of (enter_frame ex_s2) (ex_vm VNil).
+
+Lemma ex_heap_inv : heap_inv ex_heap.
+Proof. unfold ex_heap. repeat apply heap_inv_put_any. apply heap_inv_new. reflexivity. Qed.
+
+Lemma ex_store_wf : store_wf ex_store.
+Proof.
+  intros e He. change (2 <= e) in He. change (tget (tset tempty 1 [VUndef; VBool true]) e = None).
+  rewrite tget_tset_other by lia. apply tget_tempty.
+Qed.
+
+Lemma ex_lex_inv arg : no_lexptr arg -> lex_inv (ex_vm arg).
+Proof.
+  intros Ha. constructor; cbn [hp st acc ex_vm].
+  - exact ex_heap_inv.
+  - exact ex_store_wf.
+  - intros eid l k v E Hk. change (tget (tset tempty 1 [VUndef; VBool true]) eid = Some l) in E.
+    destruct (N.eq_dec 1 eid) as [<-|Hne].
+    + rewrite tget_tset_same in E. injection E as <-. apply no_lexptr_slot_flat.
+      unfold list_get in Hk. destruct (N.to_nat k) as [|[|[|n]]]; cbn in Hk; try discriminate;
+        injection Hk as <-; exact I.
+    + rewrite tget_tset_other in E by exact Hne. rewrite tget_tempty in E. discriminate.
+  - intros i. rewrite sget_slot.
+    change (stack (ex_vm arg)) with (tset (tset (tset (tset tempty 1 arg) 2 (VArgc 1)) 3 (VEp USIZE_MAX)) 4 (VIp 0 0)).
+    rewrite !slot_tset.
+    destruct (4 =? i); [exact I|]. destruct (3 =? i); [exact I|]. destruct (2 =? i); [exact I|].
+    destruct (1 =? i); [exact Ha|]. unfold slot. rewrite tget_tempty. exact I.
+  - exact I.
+Qed.
+
+(* the flatness statement quantified over ALL machine states — including states no run
+   produces — is false: a hand-made environment whose slot points to itself *)
+Definition ex_loop_vm : vm :=
+  mk_vm (snd (heap_put (heap_new 8) (VLexEnv 0)))
+        (mk_store tempty tempty (tset tempty 0 [VLexPtr 0 0]) tempty tempty tempty 1)
+        [] [] stack_new STACK_INIT 0 0 0 (USIZE_MAX, 0) VUndef [].
+
+Lemma flat_not_universal : ~ (forall s, flat s).
+Proof.
+  intros H. specialize (H ex_loop_vm 0 0 0 0 0 [VLexPtr 0 0] eq_refl eq_refl).
+  destruct H as (e2 & l2 & v & He & Hv & Hc).
+  vm_compute in He. injection He as <- <-. vm_compute in Hv. injection Hv as <-. exact Hc.
+Qed.
+
+(* facts about the example machine, by computation *)
+Lemma ex_enter_1 : enter_frame (ex_vm (VBool false)) = ROk false ex_s1 /\ ep ex_s1 = 3 /\
+  env_at ex_s1 3 = Some (2, [VBool false; VLexPtr 1 1]).
+Proof. vm_compute. auto. Qed.
+Lemma ex_enter_2 : enter_frame ex_s2 = ROk false ex_s2' /\ ep ex_s2' = 4 /\
+  env_at ex_s2 3 = Some (2, [VBool false; VLexPtr 1 1]) /\
+  env_at ex_s2' 4 = Some (3, [VNil; VLexPtr 1 1]) /\
+  heap_deref (hp ex_s2) (acc ex_s2) = Ok (VClosure 0 1).
+Proof. vm_compute. auto 6. Qed.
+Lemma ex_store_2 : exists s3, store_lex_slot 0 (VChar 65) ex_s2' = ROk tt s3 /\
+  location ex_s2' (ep ex_s2') 0 = Some (3, 0) /\
+  env_at s3 4 = Some (3, [VChar 65; VLexPtr 1 1]) /\
+  load_lex_slot 0 (with_ep ex_s2' 3) = ROk (VBool false) (with_ep ex_s2' 3).
+Proof. eexists. vm_compute. auto 6. Qed.
+Lemma ex_ret : exists s0 s', read_opcode ex_s1 = ROk ORet s0 /\ run_one ex_ob ex_s1 = ROk false s' /\
+  ep s' = USIZE_MAX /\ sp s' = 0 /\ heap_get (hp ex_s1) 2 = Ok (VClosure 0 1) /\
+  load_lex_slot 0 (with_ep ex_s1 3) = ROk (VBool false) (with_ep ex_s1 3).
+Proof. eexists. eexists. vm_compute. auto 8. Qed.
